@@ -4,7 +4,11 @@ the simulated clock feeding utime()/time.time() increments from microseconds to 
 import copy
 
 from ._prog import ProgProp
-from .. import gen, progsim, real
+import json
+import random
+import zlib
+
+from .. import gen, progsim, real, prog
 
 
 class C20(ProgProp):
@@ -97,8 +101,26 @@ class C20(ProgProp):
         if rng.random() < 0.15:
             spec["faults"].setdefault("ctx", {})["#%d" % rng.randint(1, 4)] = ["resume", rng.randint(2, 3)]
         clock = {"seed": rng.randint(0, 10 ** 6), "mode": rng.choice(["small", "mixed", "huge", "huge"])}
-        return {"spec": spec, "options": options, "clock": clock,
+        case = {"spec": spec, "options": options, "clock": clock,
                 "dump_interval": rng.choice([0, 1, 1, 3600])}
+        # the rest is decided by a digest of the case (explicit keys; the generator's random
+        # stream is the same as before these dimensions existed)
+        d = zlib.crc32(json.dumps(case, sort_keys=True).encode())
+        extra = [None, "COLLECT_PERF_STATS", "DUMP_FLUSH_BATCH", "KEEP_DEPENDENCIES", "DUMP_SCHEDULER_STATE", None][d % 6]
+        if extra is not None:
+            options[extra] = not real.DEFAULT_OPTIONS[extra]
+        if (d // 6) % 5 == 0 and spec["templates"]:
+            # the option set is switched on by user code in the middle of a task step, not before
+            t = (d // 30) % len(spec["templates"])
+            case["toggle_at"] = [t, (d // 300) % (len(spec["templates"][t]["steps"]) + 1)]
+        if (d // 7) % 7 == 0:
+            # a completion callback raises a BaseException (the computation is abandoned mid-way)
+            spec["faults"]["callbacks"] = {"#%d" % (1 + (d // 49) % 6): "base"}
+        if (d // 11) % 3 == 0:
+            # a second computation on the same scheduler afterwards (options still as they are)
+            from .c08 import _canary
+            case["canary"] = _canary(random.Random(d))
+        return case
 
     def sample(self, case, r):
         s = ProgProp.sample(self, {"spec": case["spec"], "variants": []}, r)
@@ -106,20 +128,54 @@ class C20(ProgProp):
         s["clock"] = case["clock"]
         return s
 
+    def _after(self, case, B, options):
+        """The canary computation on the scheduler the main computation has just used."""
+        c1 = copy.deepcopy(case["canary"])
+        c1["fresh_scheduler"] = False
+        c1["clock"] = case["clock"]
+        if options:
+            c1["options"] = options
+            c1["dump_interval"] = case.get("dump_interval", 1)
+        Bc = real.RealBackend(c1, ())
+        Bc.carried = B.current
+        oc = Bc.run()
+        if isinstance(oc[1], prog.HarnessError):
+            raise oc[1]
+        res = (("V", repr(oc[1])) if oc[0] == "V" else ("E", prog.errtok(oc[1])), list(Bc.trace))
+        Bc.cancel_stale_batches()
+        return res
+
     def run(self, case, build):
         spec = case["spec"]
         base = copy.deepcopy(spec)
         base["clock"] = case["clock"]
         r0 = progsim.execute(base, (), check_values=False)
         t0 = r0["trace"]
+        c0 = self._after(case, r0["B"], None) if case.get("canary") else None
         alt = copy.deepcopy(spec)
         alt["clock"] = case["clock"]
-        alt["options"] = case["options"]
+        tog = case.get("toggle_at")
+        if tog and case["options"] and tog[0] < len(alt["templates"]):
+            steps = alt["templates"][tog[0]]["steps"]
+            for o in sorted(case["options"]):
+                steps.insert(min(tog[1], len(steps)), ["opt", o, case["options"][o]])
+        else:
+            alt["options"] = case["options"]
         alt["dump_interval"] = case.get("dump_interval", 1)
         r1 = progsim.execute(alt, (), check_values=False)
-        t1 = r1["trace"]
+        t1 = [e for e in r1["trace"] if e[0] != "option"]
+        c1 = self._after(case, r1["B"], case["options"]) if case.get("canary") else None
         out = []
-        if r0["outcome"] != r1["outcome"]:
+        if c0 is not None and c0 != c1:
+            if c0[0] != c1[0]:
+                out.append(("outcome", "with options %s the next computation on the same scheduler gives %r, with defaults %r" % (sorted(case["options"]), c1[0], c0[0])))
+            else:
+                i = next((j for j in range(min(len(c0[1]), len(c1[1]))) if c0[1][j] != c1[1][j]), min(len(c0[1]), len(c1[1])))
+                out.append(("trace", "with options %s event #%d of the next computation on the same scheduler is %r, with defaults %r" % (
+                    sorted(case["options"]), i, c1[1][i] if i < len(c1[1]) else None, c0[1][i] if i < len(c0[1]) else None)))
+        if out:
+            pass
+        elif r0["outcome"] != r1["outcome"]:
             out.append(("outcome", "with options %s the computation gives %r, with defaults %r"
                         % (sorted(case["options"]), r1["outcome"], r0["outcome"])))
         elif t0 != t1:
